@@ -7,6 +7,9 @@ Script (JSON-able dict):
     ["R", t, remote, mtype, mid, tokenhex, obs|None]      GET /obs from observer `remote`
     ["M", t, remote, mtype, code, mid, tokenhex]          any other datagram (empty ACK/RST, ping ...)
     ["E", t, remote]   transport error        ["X", t]   Context.shutdown()
+    ["F", t, remote, n]  the next n sendmsg() calls towards observer `remote` fail with ENETUNREACH: the
+                         transport reports the error SYNCHRONOUSLY, from inside the send (udp6: sendmsg raises ->
+                         error_received -> dispatch_error before send() returns); n = 0 disarms
     ["U", t, code|None]                       state change + updated_state(None | Message(code))
     ["T", t, sv, code|None, is_last]          state change + servobs[sv].trigger(...)
     ["D", t, sv]                              servobs[sv].deregister()
@@ -23,7 +26,7 @@ Script (JSON-able dict):
             (such scripts are judged by the oracle only: the model takes add_observation as one step)
   draws: ACK time-outs in ticks;  mid: pinned first message id;  end: tick at which the run stops
 
-Records (out):  s@t:remote:wire   d:sv:remote:wire   x:sv   c:n   k:sv   g:sv:ver   n:sv:code:obs:body:last
+Records (out):  s@t:remote:wire   f@t:remote:wire (a send that failed)   d:sv:remote:wire   x:sv   c:n   k:sv   g:sv:ver   n:sv:code:obs:body:last
 """
 import asyncio
 import contextvars
@@ -78,6 +81,8 @@ def in_token(ev):
         return f"E@{ev[1]}:{ev[2]}"
     if k == "X":
         return f"X@{ev[1]}"
+    if k == "F":
+        return f"F@{ev[1]}:{ev[2]}:{ev[3]}"
     if k == "U":
         return f"U@{ev[1]}:{_o(ev[2])}"
     if k == "T":
@@ -113,6 +118,8 @@ class Runner:
         self.callbacks_at = {}   # tick -> number of separately scheduled in-callbacks
         self.shutdown_task = None
         self.final = {}
+        self.fail_next = {}      # remote -> number of sendmsg calls that are still to fail
+        self.failed = []         # (tick, remote, sv of the task inside which it happened | None)
 
     # ---- logging -------------------------------------------------------------------------------
     def cur_sv(self):
@@ -136,6 +143,20 @@ class Runner:
         remote = self.remote_id(dest)
         self.rec(f"s@{tick}:{remote}:{wire_str(p)}")
         self.react(tick, remote, p)
+
+    def sendmsg_hook(self, orig):
+        """wraps the fake network's delivery: a send towards an armed observer raises OSError out of sendmsg(),
+        which the real RecvmsgSelectorDatagramTransport turns into error_received() from inside send()"""
+        def _sent(address, data, ancdata):
+            remote = self.remote_id(address)
+            if self.fail_next.get(remote, 0) > 0:
+                self.fail_next[remote] -= 1
+                tick = self.loop.now_ticks()
+                self.failed.append((tick, remote, self.cur_sv()))
+                self.rec(f"f@{tick}:{remote}:{wire_str(W.parse(data))}")
+                raise OSError(errno.ENETUNREACH, "Network is unreachable")
+            return orig(address, data, ancdata)
+        return _sent
 
     def react(self, tick, remote, p):
         for key in ((remote, p["mtype"]), (remote, None)):
@@ -204,6 +225,9 @@ class Runner:
 
     def do_E(self, ev):
         self.net.inject_error(errno.ECONNREFUSED, netsim.peer(ev[2]))
+
+    def do_F(self, ev):
+        self.fail_next[ev[2]] = ev[3]
 
     def do_X(self, ev):
         if self.shut:
@@ -311,6 +335,7 @@ class Runner:
             assert loop.now_ticks() == 0
             self.install()
             self.net.on_send = self.on_send
+            self.net._sent = self.sendmsg_hook(self.net._sent)
             for ev in self.script["events"]:
                 self.schedule(ev)
             await asyncio.sleep(self.script["end"] * vloop.TICK)
@@ -327,6 +352,7 @@ class Runner:
                 await self.shutdown_task
             else:
                 self.net.on_send = None
+                self.fail_next = {}
                 frozen = self.log
                 self.log = []
                 for f in list(self.suspended.values()) + list(self.adding.values()):
